@@ -158,11 +158,27 @@ func VerifC05KV(n int, mode int) {
 	u := verifNondetU32("u32")
 	fl := verifF32(verifNondetU32("f32bits"))
 	b := verifNondetBool("bool")
-	s := vfFixedString("string", n)
+	sn := n
+	if mode == 4 {
+		sn = 1
+	}
+	s := vfFixedString("string", sn)
 	i1, i2 := verifNondetInt32("int"), verifNondetInt32("int")
 	u1, u2 := verifNondetU32("uint"), verifNondetU32("uint")
 	f1 := verifF32(verifNondetU32("f32bits"))
-	s1, s2 := vfFixedString("elem", n), vfFixedString("elem", n)
+	s1, s2 := vfFixedString("elem", sn), vfFixedString("elem", sn)
+	var long string
+	if mode == 4 {
+		// a string longer than the decoder's 16 KiB scratch buffer and than the reader's 32 KiB buffer: n KiB of
+		// a fixed pattern with arbitrary first and last bytes
+		bs := make([]byte, n*1024)
+		for i := range bs {
+			bs[i] = byte(i*7 + 3)
+		}
+		bs[0], bs[len(bs)-1] = verifNondetU8("first"), verifNondetU8("last")
+		long = string(bs)
+		kv["x.long"], kv["x.after"] = long, u
+	}
 	switch mode {
 	case 0:
 		kv["x.u32"], kv["x.bool"], kv["x.str"] = u, b, s
@@ -186,6 +202,10 @@ func VerifC05KV(n int, mode int) {
 	verifReach("decoded")
 	got := g.KV()
 	verifAssert(got.Architecture() == "x", "architecture-preserved")
+	if mode == 4 {
+		verifAssert(got.String("long") == long, "long-string-preserved")
+		verifAssert(got.Uint("after") == u, "value-after-a-long-string-preserved")
+	}
 	switch mode {
 	case 0:
 		verifAssert(got.Uint("u32") == u, "uint32-preserved")
